@@ -49,15 +49,16 @@ def literal(lex: Any, language: Any = None, datatype: Any = None) -> ExtObj:
 
 def new_graph(interp, identifier: Any = None, store: Any = None) -> ExtObj:
     if store is None or not isinstance(store, ExtObj):
-        store = ExtObj("rdflib.Store", {"graphs": []})
+        store = ExtObj("rdflib.Store", {"graphs": [], "all": []})
+    store.attrs.setdefault("all", [])
     if identifier is None:
         identifier = bnode(sstr(Atom(f"auto-graph-id", nosep=True)))
-    # one context per (store, identifier)
-    for g in store.attrs["graphs"]:
+    # one context per (store, identifier): Graph objects over the same store and identifier share their triples
+    for g in store.attrs["all"]:
         if interp.truth(interp.eq(g.attrs["identifier"], identifier), "graph-id"):
             return ExtObj("rdflib.Graph", {"identifier": identifier, "store": store, "data": g.attrs["data"], "ns": store.attrs.setdefault("ns", AList([]))})
-    data = AList([])
-    g = ExtObj("rdflib.Graph", {"identifier": identifier, "store": store, "data": data, "ns": store.attrs.setdefault("ns", AList([]))})
+    g = ExtObj("rdflib.Graph", {"identifier": identifier, "store": store, "data": AList([]), "ns": store.attrs.setdefault("ns", AList([]))})
+    store.attrs["all"].append(g)
     return g
 
 
@@ -68,7 +69,7 @@ def _register(store: ExtObj, g: ExtObj) -> None:
 
 def new_dataset(interp, store: Any = None) -> ExtObj:
     if store is None or not isinstance(store, ExtObj):
-        store = ExtObj("rdflib.Store", {"graphs": []})
+        store = ExtObj("rdflib.Store", {"graphs": [], "all": []})
     default = new_graph(interp, uri(DEFAULT_GRAPH_IRI), store)
     return ExtObj("rdflib.Dataset", {"identifier": uri(DEFAULT_GRAPH_IRI), "store": store, "default": default, "ns": store.attrs.setdefault("ns", AList([])), "data": default.attrs["data"]})
 
